@@ -52,6 +52,12 @@ def make(rng, name, node=False, with_starts=None, with_ignore=None, with_cons=No
         mp = {x: f"{y}.5"}
         G0 = nx.relabel_nodes(G0, mp, copy=True)
         routes = [[mp.get(v, v) for v in r] for r in routes]
+    if G0.number_of_nodes() >= 2 and rng.random() < 0.06:
+        # the empty string is a string, hence a legal node name (and falsy: `not any(predecessors)`-style tests trip over it)
+        x = rng.choice(list(G0.nodes()))
+        if "" not in G0:
+            G0 = nx.relabel_nodes(G0, {x: ""}, copy=True)
+            routes = [["" if v == x else v for v in r] for r in routes]
     is_int = True if cyclic else (rng.random() < 0.7)
     scale = 1 if is_int else rng.choice([0.5, 0.25, 1.5])
     ws = [rng.choice([1, 2, 3, 4]) * scale for _ in routes]
@@ -122,7 +128,7 @@ def make(rng, name, node=False, with_starts=None, with_ignore=None, with_cons=No
                 # coverage by length: edge lengths on some edges (missing = 1), fraction < 1 or 1
                 for e in G.edges():
                     if rng.random() < 0.7:
-                        G.edges[e]["len"] = rng.choice([1, 2, 3, 5, 0])
+                        G.edges[e]["len"] = rng.choice([1, 2, 3, 5, 0, 0])
                 kw["length_attr"] = "len"
                 kw["subpath_constraints_coverage_length"] = rng.choice([0.5, 0.75, 1])
                 info["coverage_length"] = kw["subpath_constraints_coverage_length"]
